@@ -1156,8 +1156,18 @@ def gen_parser(src):
     from rs2lean_parser import gen_parser as g
     return g(src)
 
+def gen_stdlib(src):
+    # src/stdlib/mod.rs, common.rs, math.rs, string.rs and Value::len: tools/rs2lean_stdlib.py (33 functions: index helpers and parameter-dispatch builtins)
+    from rs2lean_stdlib import gen_stdlib as g
+    return g(src)
+
+def gen_scanner(src):
+    # src/scanner.rs (`impl Scanner`): tools/rs2lean_scanner.py, a state-monad translation over the two cursors; loops spend fuel
+    from rs2lean_scanner import gen_scanner as g
+    return g(src)
+
 TARGETS = (('SrcInterp', gen_interp), ('SrcValidate', gen_validate), ('SrcOptimizer', gen_optimizer), ('SrcEnv', gen_env), ('SrcOrder', gen_order),
-           ('SrcParser', gen_parser))
+           ('SrcParser', gen_parser), ('SrcStdlib', gen_stdlib), ('SrcScanner', gen_scanner))
 
 def main():
     a = sys.argv[1:]
